@@ -203,6 +203,7 @@ func Run(id, tier string, seed int) int {
 	if fatalErr == nil && ch.Custom != nil {
 		fatalErr = ch.Custom(ctx)
 	}
+	engine.CloseSolvers()
 	code := 0
 	if fatalErr != nil {
 		fmt.Printf("ERROR %s: %v\n", id, fatalErr)
